@@ -409,6 +409,7 @@ pub fn build_ops(al: &Arc<Alph>) -> (Vec<Op>, Vec<Op>) {
             describe: Box::new(move |i| json!({"x": hx(a4.unary(i)), "class": class_of(a4.unary(i))})),
             conflate,
             min_distinct,
+            lean: al.thorough,
         });
     };
 
@@ -437,6 +438,7 @@ pub fn build_ops(al: &Arc<Alph>) -> (Vec<Op>, Vec<Op>) {
             special: Box::new(move |i| special_f32(a3.b[(i / nb) as usize]) || special_f32(a3.b[(i % nb) as usize])),
             describe: Box::new(move |i| json!({"a": hx(a4.b[(i / nb) as usize]), "b": hx(a4.b[(i % nb) as usize])})),
             conflate: false,
+            lean: false,
             min_distinct: 100,
         });
     }
@@ -471,6 +473,7 @@ pub fn build_ops(al: &Arc<Alph>) -> (Vec<Op>, Vec<Op>) {
             special: Box::new(move |i| a3.v[(i / nb) as usize].iter().chain(a3.v[(i % nb) as usize].iter()).any(|x| special_f32(*x))),
             describe: Box::new(move |i| json!({"p": a4.v[(i / nb) as usize].iter().map(|x| hx(*x)).collect::<Vec<_>>(), "q": a4.v[(i % nb) as usize].iter().map(|x| hx(*x)).collect::<Vec<_>>(), "k": hx(a4.b[(i % nb) as usize])})),
             conflate: false,
+            lean: false,
             min_distinct: 100,
         });
     }
@@ -490,6 +493,7 @@ pub fn build_ops(al: &Arc<Alph>) -> (Vec<Op>, Vec<Op>) {
             special: Box::new(move |i| a3.q[(i / nb) as usize].iter().chain(a3.q[(i % nb) as usize].iter()).any(|x| special_f32(*x))),
             describe: Box::new(move |i| json!({"p_xyzw": a4.q[(i / nb) as usize].iter().map(|x| hx(*x)).collect::<Vec<_>>(), "q_xyzw": a4.q[(i % nb) as usize].iter().map(|x| hx(*x)).collect::<Vec<_>>()})),
             conflate: true,
+            lean: false,
             min_distinct: 50,
         });
     }
@@ -516,6 +520,7 @@ pub fn build_ops(al: &Arc<Alph>) -> (Vec<Op>, Vec<Op>) {
             special: Box::new(move |i| a3.q[i as usize].iter().any(|x| special_f32(*x))),
             describe: Box::new(move |i| json!({"q_xyzw": a4.q[i as usize].iter().map(|x| hx(*x)).collect::<Vec<_>>()})),
             conflate: true,
+            lean: false,
             min_distinct: 8,
         });
     }
@@ -542,6 +547,7 @@ pub fn build_ops(al: &Arc<Alph>) -> (Vec<Op>, Vec<Op>) {
             special: Box::new(move |i| special_f32(a3.b[(i % nb) as usize]) || a3.v[(i / nb) as usize].iter().any(|x| special_f32(*x))),
             describe: Box::new(move |i| json!({"axis": a4.v[(i / nb) as usize].iter().map(|x| hx(*x)).collect::<Vec<_>>(), "angle": hx(a4.b[(i % nb) as usize])})),
             conflate: true,
+            lean: false,
             min_distinct: 50,
         });
     }
@@ -576,6 +582,7 @@ pub fn build_ops(al: &Arc<Alph>) -> (Vec<Op>, Vec<Op>) {
             special: Box::new(move |i| a3.m[(i / nm) as usize].iter().chain(a3.m[(i % nm) as usize].iter()).any(|x| special_f32(*x))),
             describe: Box::new(move |i| json!({"p_matrix_index": i / nm, "q_matrix_index": i % nm, "p": a4.m[(i / nm) as usize].iter().map(|x| format!("{x:08x}")).collect::<Vec<_>>().join(" "), "q": a4.m[(i % nm) as usize].iter().map(|x| format!("{x:08x}")).collect::<Vec<_>>().join(" ")})),
             conflate: false,
+            lean: false,
             min_distinct: 100,
         });
     }
@@ -620,6 +627,7 @@ pub fn build_ops(al: &Arc<Alph>) -> (Vec<Op>, Vec<Op>) {
             }),
             describe: Box::new(move |i| json!({"a_raw": a4.iraw[(i / ni) as usize], "b_raw": a4.iraw[(i % ni) as usize]})),
             conflate: false,
+            lean: false,
             min_distinct: 100,
         });
     }
@@ -662,6 +670,7 @@ pub fn build_ops(al: &Arc<Alph>) -> (Vec<Op>, Vec<Op>) {
             }),
             describe: Box::new(move |i| json!({"seed": [format!("{:016x}", a4.seeds[(i / nr) as usize].0), format!("{:016x}", a4.seeds[(i / nr) as usize].1)], "min": a4.ranges[(i % nr) as usize].0, "max": a4.ranges[(i % nr) as usize].1})),
             conflate: false,
+            lean: false,
             min_distinct: 100,
         });
         let (a1, a4) = (al.clone(), al.clone());
@@ -683,6 +692,7 @@ pub fn build_ops(al: &Arc<Alph>) -> (Vec<Op>, Vec<Op>) {
             special: always(),
             describe: Box::new(move |i| json!({"seed": [format!("{:016x}", a4.seeds[i as usize].0), format!("{:016x}", a4.seeds[i as usize].1)]})),
             conflate: false,
+            lean: false,
             min_distinct: 32,
         });
     }
@@ -712,6 +722,7 @@ pub fn build_ops(al: &Arc<Alph>) -> (Vec<Op>, Vec<Op>) {
             }),
             conflate: false,
             min_distinct,
+            lean: false,
         });
     };
     tri(&mut ops, "f32s_compose", 100, |a, b, c, o| {
@@ -793,13 +804,22 @@ pub fn build_ops(al: &Arc<Alph>) -> (Vec<Op>, Vec<Op>) {
             return; // outside the stated domain: see profile_dependent_panics
         }
         let a = F32Scalar::new(x);
-        let s = a.sin();
-        let c = a.cos();
-        let (s2, c2) = a.sin_cos();
+        // primary entry point, always hashed
+        let (s, c) = a.sin_cos();
         let sb = sc(o, s);
         let cb = sc(o, c);
-        if sc(o, s2) != sb || sc(o, c2) != cb {
-            o.fail("sin_cos-inconsistent-with-sin/cos");
+        // the sin()/cos() wrappers: hashed in every build except in the lean 2^32 sweeps, where
+        // they are compared with the primary in the oracle pass only
+        if !o.lean || o.oracles {
+            let (s1, c1) = (a.sin(), a.cos());
+            let same = s1.to_f32().to_bits() == sb && c1.to_f32().to_bits() == cb;
+            if !o.lean {
+                sc(o, s1);
+                sc(o, c1);
+            }
+            if !same {
+                o.fail("sin_cos-inconsistent-with-sin/cos");
+            }
         }
         if o.oracles {
             // not hashed: the values for -x are in the stream at the index of -x
@@ -845,12 +865,18 @@ pub fn build_ops(al: &Arc<Alph>) -> (Vec<Op>, Vec<Op>) {
         o.r(d.to_f32());
         let nd = -d;
         o.i(nd.raw());
-        let (s, c) = (d.sin(), d.cos());
-        let (s2, c2) = d.sin_cos();
+        let (s, c) = d.sin_cos();
         o.i(s.raw());
         o.i(c.raw());
-        if s2 != s || c2 != c {
-            o.fail("sin_cos-inconsistent-with-sin/cos");
+        if !o.lean || o.oracles {
+            let (s1, c1) = (d.sin(), d.cos());
+            if !o.lean {
+                o.i(s1.raw());
+                o.i(c1.raw());
+            }
+            if s1 != s || c1 != c {
+                o.fail("sin_cos-inconsistent-with-sin/cos");
+            }
         }
         let one = DFix64::ONE.raw();
         if s.raw().abs() > one || c.raw().abs() > one {
@@ -894,20 +920,28 @@ pub fn build_ops(al: &Arc<Alph>) -> (Vec<Op>, Vec<Op>) {
             return;
         }
         let rx = Mat4::rotation_x(x).to_array();
-        let ry = Mat4::rotation_y(x).to_array();
-        let rz = Mat4::rotation_z(x).to_array();
         let (c, s, ns) = (rx[5], rx[6], rx[9]);
-        for v in [rx[5], rx[6], rx[9], rx[10], ry[0], ry[2], ry[8], ry[10], rz[0], rz[1], rz[4], rz[5]] {
+        for v in [rx[5], rx[6], rx[9], rx[10]] {
             o.r(v);
+        }
+        let same = |a: f32, b: f32| a.to_bits() == b.to_bits();
+        // rotation_y / rotation_z: hashed except in the lean 2^32 sweeps (compared there in the oracle pass)
+        if !o.lean || o.oracles {
+            let ry = Mat4::rotation_y(x).to_array();
+            let rz = Mat4::rotation_z(x).to_array();
+            if !o.lean {
+                for v in [ry[0], ry[2], ry[8], ry[10], rz[0], rz[1], rz[4], rz[5]] {
+                    o.r(v);
+                }
+            }
+            if !(same(rx[10], c) && same(ry[0], c) && same(ry[10], c) && same(rz[0], c) && same(rz[5], c) && same(ry[8], s) && same(rz[1], s) && same(ry[2], ns) && same(rz[4], ns)) {
+                o.fail("rotation_x/y/z-disagree-on-sin/cos");
+            }
         }
         if !o.oracles {
             return;
         }
         let nx = Mat4::rotation_x(-x).to_array();
-        let same = |a: f32, b: f32| a.to_bits() == b.to_bits();
-        if !(same(rx[10], c) && same(ry[0], c) && same(ry[10], c) && same(rz[0], c) && same(rz[5], c) && same(ry[8], s) && same(rz[1], s) && same(ry[2], ns) && same(rz[4], ns)) {
-            o.fail("rotation_x/y/z-disagree-on-sin/cos");
-        }
         if !same(nx[5], c) {
             o.fail("cos-not-exactly-even");
         }
@@ -935,6 +969,7 @@ pub fn build_ops(al: &Arc<Alph>) -> (Vec<Op>, Vec<Op>) {
             special: Box::new(|_| true),
             describe: Box::new(move |i| json!({"x": hx(n2[i as usize])})),
             conflate: false,
+            lean: false,
             min_distinct: 0,
         }
     };
